@@ -9,5 +9,5 @@ CONSTANTS
   Weaken = "none"
 VIEW MCView
 INVARIANTS Invs
-PROPERTIES AcceptNeedsKey GenStable
+PROPERTIES AcceptNeedsKey GenStable DispatchIsDisjunction
 CHECK_DEADLOCK FALSE
